@@ -130,10 +130,12 @@ Example C07_roundtrip_hypotheses_satisfiable :
   estop K_SEMI = true /\ print false ex_tree = s2l "(a + b) * c".
 Proof. exact roundtrip_hypotheses_satisfiable. Qed.
 
-(* The same for a larger expression language [ex]: identifiers, binary operators, the prefix operators - + ! ~ * &,
-   subscripts, member accesses (. and ->), the conditional operator and all (compound) assignments, nested in any way
-   and to any depth.  [xt rp e] is the token sequence of the generated text, with operands parenthesised exactly as
-   visit_BinaryOp / visit_UnaryOp / visit_ArrayRef / visit_StructRef / visit_TernaryOp / visit_Assignment do.
+(* The same for a larger expression language [ex]: identifiers, integer / floating / character constants, binary
+   operators, the prefix operators - + ! ~ * &, subscripts, member accesses (. and ->), function calls with any number of
+   arguments, the conditional operator, all (compound) assignments and comma expressions, nested in any way and to any
+   depth.  [xt rp e] is the token sequence of the generated text, with operands parenthesised exactly as visit_BinaryOp /
+   visit_UnaryOp / visit_ArrayRef / visit_StructRef / visit_FuncCall / visit_TernaryOp / visit_Assignment /
+   visit_ExprList / _visit_expr do.
    Parser side: whenever the whole-parser model finds these tokens followed by a token that cannot continue an
    expression, p_expression returns exactly e (coordinates erased) and has consumed exactly these tokens. *)
 Theorem C07_parse_of_generated_expression : forall (P: Type) rp (e: ex), wf e ->
@@ -145,18 +147,19 @@ Print Assumptions C07_parse_of_generated_expression.
 (* generator side: the generator MODEL prints [ptext rp e] for every such expression and leaves the indentation alone *)
 Theorem C07_generator_prints_expression : forall (C: Type) rp (e: ex), wf e -> forall fuel st, (3 * size e <= fuel)%nat ->
   visit C rp fuel (embC C e) st = GOk (ptext rp e, st).
-Proof. exact visit_prints_x. Qed.
+Proof. intros C rp e Hw. exact (visit_prints_x C rp (size e) e (le_n _) Hw). Qed.
 Print Assumptions C07_generator_prints_expression.
 
 (* ... and that text, blanks removed, is the concatenation of the spellings of the tokens [xt rp e] *)
 Theorem C07_expression_text_is_its_tokens : forall rp (e: ex), wf e -> ids_nb e -> despace (ptext rp e) = spell (xt rp e).
-Proof. exact ptext_tokens. Qed.
+Proof. intros rp e. exact (ptext_tokens rp (size e) e (le_n _)). Qed.
 Print Assumptions C07_expression_text_is_its_tokens.
 
-(* non-vacuity: a[i].f = -b * (c ? d : e) *)
+(* non-vacuity: a[i].f = -b * (c ? d : e), g(1, (x, y)) *)
 Example C07_expression_example :
   wf ex_x /\ ids_nb ex_x /\
-  visit nat false 40 (embC nat ex_x) Z0 = GOk (s2l "a[i].f = (-b) * ((c) ? (d) : (e))", Z0) /\
+  visit nat false 80 (embC nat ex_x) Z0 = GOk (s2l "a[i].f = (-b) * ((c) ? (d) : (e)), g(1, (x, y))", Z0) /\
   map fst (xt false ex_x) = [K_ID; K_LBRACKET; K_ID; K_RBRACKET; K_PERIOD; K_ID; K_EQUALS; K_LPAREN; K_MINUS; K_ID; K_RPAREN; K_TIMES;
-                             K_LPAREN; K_LPAREN; K_ID; K_RPAREN; K_CONDOP; K_LPAREN; K_ID; K_RPAREN; K_COLON; K_LPAREN; K_ID; K_RPAREN; K_RPAREN].
+                             K_LPAREN; K_LPAREN; K_ID; K_RPAREN; K_CONDOP; K_LPAREN; K_ID; K_RPAREN; K_COLON; K_LPAREN; K_ID; K_RPAREN; K_RPAREN;
+                             K_COMMA; K_ID; K_LPAREN; K_INT_CONST_DEC; K_COMMA; K_LPAREN; K_ID; K_COMMA; K_ID; K_RPAREN; K_RPAREN].
 Proof. exact expression_example. Qed.
